@@ -458,7 +458,92 @@ def check_windcount(ctx, rule='R-WINDCOUNT'):
                                   'accumulates with the number of steps and long files get a TSTEP dimension that is too long (26 for 25 steps of a 2-layer 3x4 grid)' % (got, want)))
 
 
+def check_scan_siblings(ctx, rule='R-SCANSIBS'):
+    """the end-of-file scans of the record readers: (a) the branches that read the two time-header layouts leave the same attributes
+    of the reader updated - a branch that forgets the end stamp stops the count at the second header for files of that layout;
+    (b) the scan ends by running off the file (the exception), not by comparing a stamp with a predicted one - CAMx stamps the last
+    hour of a day 2400 on the same date, which no roll-over arithmetic predicts."""
+    ctx.rule(rule, 'record readers: the header-layout branches of the end-of-file scan update the same attributes, and the scan has no stamp-comparison exit')
+    n = 0
+    for fmt in ('wind', 'one3d', 'temperature', 'height_pressure'):
+        rp = CAMX + fmt + '/Read.py'
+        m = ctx.src.mod(rp)
+        for q, fn in sorted(m.functions.items()):
+            if not q.endswith('__gettimestep'):
+                continue
+            where = 'src/PseudoNetCDF/%s %s' % (rp, q)
+            for lp in [x for x in ast.walk(fn) if isinstance(x, ast.While)]:
+                tries = [x for x in lp.body if isinstance(x, ast.Try)]
+                if not tries:
+                    continue
+                n += 1
+                tr = tries[0]
+                # (b) no conditional break in the try body
+                brk = [x for st in tr.body for x in ast.walk(st) if isinstance(x, ast.If) and any(isinstance(y, ast.Break) for y in ast.walk(x))
+                       and any(isinstance(y, ast.Compare) for y in ast.walk(x.test))]
+                if brk:
+                    ctx.violation(Finding(rule, rp, q, brk[0], 'the scan stops when the stamp it reads differs from the one it computed (%s): the last hour of a day is stamped 2400 on the same date, '
+                                          'the computed stamp is 0000 of the next day, so the record reader ends one step before the memory-mapped reader' % norm(brk[0].test)[:50]))
+                    continue
+                # (a) sibling branches on the record size / header format
+                chain = [x for st in tr.body for x in ast.walk(st) if isinstance(x, ast.If) and ('record_size' in norm(x.test) or 'hdr_fmt' in norm(x.test))]
+                if chain:
+                    top = chain[0]
+                    branches, node = [], top
+                    while isinstance(node, ast.If):
+                        branches.append(node.body)
+                        node = node.orelse[0] if len(node.orelse) == 1 and isinstance(node.orelse[0], ast.If) else None
+                    sets = []
+                    for b in branches:
+                        if any(isinstance(x, ast.Raise) for st in b for x in ast.walk(st)):
+                            continue
+                        sets.append(set(norm(t) for st in b for x in ast.walk(st) if isinstance(x, ast.Assign) for t0 in x.targets for t in (t0.elts if isinstance(t0, ast.Tuple) else [t0])
+                                        if isinstance(t, ast.Attribute)))
+                    if len(sets) >= 2 and any(s_ != sets[0] for s_ in sets[1:]):
+                        missing = sorted(set.union(*sets) - set.intersection(*sets))
+                        ctx.violation(Finding(rule, rp, q, top, 'the branches for the two time-header layouts do not update the same attributes (%s only in some): for files of the other layout the end stamp '
+                                              'stays at the second header and the reader exposes two time steps whatever the file holds' % ', '.join(missing)))
+                    else:
+                        ctx.ok(rule, '%s:scan' % q, where, 'branches update %s' % (sorted(sets[0]) if sets else 'nothing'))
+                else:
+                    ctx.ok(rule, '%s:scan' % q, where, 'position-only scan, exit by exception')
+    ctx.floor('end-of-file scans of the record readers', n, 3)
+
+
+def check_default_shape(ctx, rule='R-DEFSHAPE'):
+    """both readers of a format give a file opened without a grid shape the same default orientation (all cells in one column of rows)"""
+    ctx.rule(rule, 'record and memory-mapped reader of a format use the same default (rows, cols) when no grid shape is given')
+    n = 0
+    for fmt, cls in (('one3d', 'one3d'), ('temperature', 'temperature'), ('height_pressure', 'height_pressure')):
+        got = {}
+        for kind in ('Read', 'Memmap'):
+            rp = CAMX + fmt + '/%s.py' % kind
+            m = ctx.src.mod(rp)
+            for q, fn in m.functions.items():
+                if not q.startswith(cls + '.'):
+                    continue
+                for st in ast.walk(fn):
+                    if isinstance(st, ast.If) and norm(st.test) in ('rows is None and cols is None', 'cols is None and rows is None'):
+                        ones = [norm(s2.targets[0]) for s2 in st.body if isinstance(s2, ast.Assign) and isinstance(s2.value, ast.Constant) and s2.value.value == 1]
+                        if len(ones) == 1:
+                            got[kind] = (ones[0], st, rp, q)
+        where = 'src/PseudoNetCDF/%s%s Read.py vs Memmap.py' % (CAMX, fmt)
+        if len(got) < 2:
+            ctx.undec(rule, fmt, where, 'default shape not found in both readers (%s)' % sorted(got))
+            continue
+        n += 1
+        if got['Read'][0] == got['Memmap'][0]:
+            ctx.ok(rule, fmt, where, 'both set %s = 1' % got['Read'][0])
+        else:
+            g = got['Memmap']
+            ctx.violation(Finding(rule, g[2], g[3], g[1], 'opened without a grid shape the memory-mapped reader sets %s = 1 and the record reader %s = 1: ROW and COL have other lengths in the two '
+                                  'readers (1 x N against N x 1)' % (g[0], got['Read'][0])))
+    ctx.floor('formats with a default grid shape in both readers', n, 2)
+
+
 def run(ctx):
+    check_scan_siblings(ctx)
+    check_default_shape(ctx)
     for r, d in (('R-FMTTABLE', 'uamiv: struct strings of Read.py == word sequence of the Memmap.py layouts'),
                  ('R-IDWORDS', "met formats: id_fmt 'fi' == memmap usage of words 1:3 (float time, integer date), data 3:-1"),
                  ('R-STEPID', 'time-step detection compares both identifier words'),
